@@ -92,17 +92,23 @@ Inductive sel :=
 
 Record fetch := mkFetch { f_q : qmode; f_sel : sel }.
 
+(* what precedes the mutation of a fetched row *)
+Inductive guard :=
+  | GNone
+  | GOwner     (* owner-or-admin test only *)
+  | GAccess.   (* m_dbutils.check_db_obj_access: owner-or-admin, and no system row for non-admins *)
+
 Inductive shape :=
   | SGet (f : fetch)                       (* first match or DBEntityNotFoundError *)
   | SLoad (f : fetch)                      (* first match or None *)
   | SList (q : qmode)                      (* all matches of the caller's filters *)
   | SCount (q : qmode)
   | SCreate (forced : bool)               (* forced: the model class has the _set_project_id 'set' hook *)
-  | SUpdate (f : fetch) (chk : bool) (forced : bool)  (* fetch as SGet; chk: check_db_obj_access before the mutation *)
-  | SDeleteObj (f : fetch) (chk : bool) (cascade : bool)  (* fetch as SGet, then delete that row (+ its member rows) *)
+  | SUpdate (f : fetch) (g : guard) (forced : bool)  (* fetch as SGet; g: the check before the mutation *)
+  | SDeleteObj (f : fetch) (g : guard) (cascade : bool)  (* fetch as SGet, then delete that row (+ its member rows) *)
   | SDeleteQuery (f : fetch)               (* query.filter(sel).delete(): every match; none -> NotFound *)
   | SDeleteAll (q : qmode)                 (* _delete_all: every match of the caller's filters *)
-  | SCreateOrUpdate (probe : fetch) (upd : fetch) (chk : bool) (forced : bool)
+  | SCreateOrUpdate (probe : fetch) (upd : fetch) (g : guard) (forced : bool)
   | SInternal.                             (* engine/service-internal function: not part of the tenant surface *)
 
 (* arguments of one call *)
@@ -174,6 +180,13 @@ Definition access_check (c : ctx) (r : res) : access :=
   else if negb (c_admin c) && r_system r then AInvalid
   else AOk.
 
+Definition guard_check (g : guard) (c : ctx) (r : res) : access :=
+  match g with
+  | GNone => AOk
+  | GOwner => if negb (c_admin c) && negb (r_owner r =? c_project c) then ADenied else AOk
+  | GAccess => access_check c r
+  end.
+
 (* model.update(values): on a hooked class every set of project_id stores the caller's
    project (_set_project_id); on a class without the hook the given value is stored *)
 Definition apply_sets (forced : bool) (c : ctx) (a : args) (r : res) : res :=
@@ -219,11 +232,11 @@ Definition do_create (forced : bool) (d : db) (c : ctx) (a : args) : result * db
   if existsb (clashes r) (rows d) then (RDuplicate, d)
   else (RRow r, mkDb (rows d ++ [r]) (mems d)).
 
-Definition do_update (f : fetch) (chk forced : bool) (d : db) (c : ctx) (a : args) : result * db :=
+Definition do_update (f : fetch) (g : guard) (forced : bool) (d : db) (c : ctx) (a : args) : result * db :=
   match first_of (candidates f d c a) a with
   | None => (RNotFound, d)
   | Some r =>
-      match (if chk then access_check c r else AOk) with
+      match guard_check g c r with
       | ADenied => (RDenied, d)
       | AInvalid => (RInvalid, d)
       | AOk => let r' := apply_sets forced c a r in (RRow r', mkDb (replace_row r' (rows d)) (mems d))
@@ -243,12 +256,12 @@ Definition exec_op (s : shape) (d : db) (c : ctx) (a : args) : result * db :=
   | SList q => (RRows (filter (filters_match a) (candidates (mkFetch q SelAll) d c a)), d)
   | SCount q => (RCount (List.length (filter (filters_match a) (candidates (mkFetch q SelAll) d c a))), d)
   | SCreate forced => do_create forced d c a
-  | SUpdate f chk forced => do_update f chk forced d c a
-  | SDeleteObj f chk cascade =>
+  | SUpdate f g forced => do_update f g forced d c a
+  | SDeleteObj f g cascade =>
       match first_of (candidates f d c a) a with
       | None => (RNotFound, d)
       | Some r =>
-          match (if chk then access_check c r else AOk) with
+          match guard_check g c r with
           | ADenied => (RDenied, d)
           | AInvalid => (RInvalid, d)
           | AOk => (ROk, mkDb (remove_row (r_id r) (rows d))
@@ -264,10 +277,10 @@ Definition exec_op (s : shape) (d : db) (c : ctx) (a : args) : result * db :=
   | SDeleteAll q =>
       let hit := filter (filters_match a) (candidates (mkFetch q SelAll) d c a) in
       (ROk, mkDb (filter (fun r => negb (existsb (fun h => r_id h =? r_id r) hit)) (rows d)) (mems d))
-  | SCreateOrUpdate probe upd chk forced =>
+  | SCreateOrUpdate probe upd g forced =>
       match candidates probe d c a with
       | [] => do_create forced d c a
-      | _ => do_update upd chk forced d c a
+      | _ => do_update upd g forced d c a
       end
   | SInternal => (ROk, d)
   end.
